@@ -119,7 +119,15 @@ Lemma getsatcellmaps_named ident o :
       Ok (with_maps o (combine (numbers (List.length satlabels)) satlabels)
                       (cells_of (fun idx => Z.testbit df396 (ncells - idx)) (pairs_of satlabels sigs)))
   end.
-Proof. reflexivity. Qed.
+Proof.
+  unfold getsatcellmaps.
+  destruct (assoc (substring 0 3 ident) (t_prnsig T)) as [[prnmap sigmap]|]; [|reflexivity].
+  destruct (getint o "DF394") as [d4|e|k|w]; cbn [obind]; [|reflexivity..].
+  destruct (getint o "DF395") as [d5|e|k|w]; cbn [obind]; [|reflexivity..].
+  destruct (getint o "DF396") as [d6|e|k|w]; cbn [obind]; [|reflexivity..].
+  unfold satlabels_of, sigs_of, sats_of, sigids_of, pairs_of, cells_of, numbers. cbv zeta.
+  reflexivity.
+Qed.
 
 Lemma map_fst_pairs_of satlabels sigs :
   map fst (pairs_of satlabels sigs) = flat_map (fun s => repeat s (List.length sigs)) satlabels.
@@ -237,17 +245,17 @@ Proof.
   - (* CPR *) unfold label_lookup. destruct (first_index idx) as [i| | |]; cbn [obind]; try (cbn; reflexivity).
     unfold cmrel in C.
     destruct (o_cellmap o) as [m|]; destruct (o_cellmap o') as [m'|]; cbn [option_map] in C; try discriminate.
-    + injection C as C. pose proof (zassoc_cmrel i m m' C) as Z.
+    + injection C as C. pose proof (zassoc_cmrel i m m' C) as Zx.
       destruct (zassoc i m) as [x|]; destruct (zassoc i m') as [x'|]; try contradiction.
-      * apply osim_ok. split; [reflexivity|left]. cbn [fst]. now rewrite Z.
+      * apply osim_ok. split; [reflexivity|left]. cbn [fst]. now rewrite Zx.
       * cbn. reflexivity.
     + cbn. reflexivity.
   - (* CSG *) unfold label_lookup. destruct (first_index idx) as [i| | |]; cbn [obind]; try (cbn; reflexivity).
     unfold cmrel in C.
     destruct (o_cellmap o) as [m|]; destruct (o_cellmap o') as [m'|]; cbn [option_map] in C; try discriminate.
-    + injection C as C. pose proof (zassoc_cmrel i m m' C) as Z.
+    + injection C as C. pose proof (zassoc_cmrel i m m' C) as Zx.
       destruct (zassoc i m) as [x|]; destruct (zassoc i m') as [x'|]; try contradiction.
-      * apply osim_ok. split; [reflexivity|right]. split; [reflexivity|]. cbn [fst]. unfold both_str. eauto.
+      * apply osim_ok. split; [reflexivity|right]. split; [exact TY|]. cbn [fst]. unfold both_str. eauto.
       * cbn. reflexivity.
     + cbn. reflexivity.
 Qed.
